@@ -20,6 +20,11 @@
    statement / clause position; the references between the fields of a statement that passed the
    cycle test can be ranked (the premise of C14's statement theorems).  A difference is code 1, a rejection position outside the
    query code 2, one that is no token start code 3, a text outside the model code 99.
+   A case with corigin = 5 (T3) is an ACCEPTED statement text that fails while its plan is
+   drained, with the store, the batch size and the class / Pos of the error of the row drain and
+   of the batch drain: parse_check, the statement-level folder twin (Model/FoldStmt.exec_tree) and
+   the drain twins (Model/ScanProj.select_row / select_batch) are run on the same text and store;
+   a different class or position is code 1, a Pos outside the query code 2 (see t3_code below).
    A case with corigin = 3 is an accepted statement: its trees (before and after constant
    folding) and statement positions are checked against the provenance invariant of
    Model/ErrPos.v (every Pos is 0 or a token's Pos, token offsets inside the query); a failure
@@ -37,7 +42,8 @@ Record ncase := NCase {
   cerr : nat;             (* 0 SyntaxError, 1 ExecuteError *)
   corigin : nat;          (* 0 constructed by the harness (renderer grid), 1 returned by BuildPlan
                              (parse / check / plan construction), 2 returned while executing,
-                             3 no error: accepted statement, provenance of its trees *)
+                             3 no error: accepted statement, provenance of its trees,
+                             4 statement text vs parse_check, 5 failing run vs the evaluator twins *)
   cquery : string;        (* the text passed to BindQuery *)
   cpos : Z;               (* .Pos *)
   cpad : Z;               (* SetPadding *)
@@ -246,8 +252,94 @@ Definition pa_class (q : string) : nat :=
   | _ => 9
   end.
 
+(* ---- corigin = 5 (T3): execution errors of ACCEPTED statements, through the composite twin ----
+   One case = one statement text that BuildPlan accepts, one store, one batch size, and what the
+   drain of the plan did in row mode (Next until nil) and in batch mode (Batch until empty): no
+   error, or the class and Pos of the error.  The twin side: parse_check on the text, the trees
+   the plan executes (Model/FoldStmt.exec_tree: the constant folder applied to WHERE and to every
+   field, references re-pointed to the field objects as the folder left them), and the scan +
+   filter + projection drain of Model/ScanProj.v (select_row / select_batch) on the store.
+     cerr / cpos   row mode:   0 no error, 1 ExecuteError, 2 SyntaxError, 3 other error, 4 panic; Pos
+     cspos         [class of the batch-mode outcome; batch size; 1 = the plan is ProjectionPlan over
+                   FullScanPlan (every stored pair is a slot, in key order), 0 = a narrowed scan]
+     cpad          batch mode: Pos
+     croots        the store: EStr 0 key; EStr 0 value; ... in key order
+   codes: 2 an execution error's Pos is neither -1 nor inside the query; 1 the twin reports
+   another outcome (other class, other position) than the implementation; 99 outside the twins
+   (parse_check, ORDER BY / GROUP BY / LIMIT / aggregates, regular expressions, floats outside
+   the model).  With a narrowed scan the slots are not modelled here (C02 / C18): the observed
+   position must then be one of the positions of the executed trees (what Properties/C17.v
+   select_err_pos proves of every drain). *)
+From KV Require Model.Value Model.Eval Model.EvalVec Model.Fold Model.FoldStmt Model.ScanProj.
+
+Definition t3_re (pat text : string) : Value.res bool := Value.OutOfModel.
+
+Fixpoint t3_slots (l : list expr) : list (option EvalVec.kvpair) :=
+  match l with
+  | EStr _ k :: EStr _ v :: l' => Some (k, v) :: t3_slots l'
+  | _ => []
+  end.
+
+(* outcome of a drain against the observed (class, Pos) *)
+Definition t3_cmp {A} (r : Value.res A) (cls : nat) (p : Z) : nat :=
+  match r with
+  | Value.OutOfModel => 99%nat
+  | Value.Ok _ => if (cls =? 0)%nat then 0%nat else 1%nat
+  | Value.Err (Value.EExec n) => if (cls =? 1)%nat && (p =? Z.of_nat n)%Z then 0%nat else 1%nat
+  | Value.Err (Value.ESyntax n) => if (cls =? 2)%nat && (p =? Z.of_nat n)%Z then 0%nat else 1%nat
+  | Value.Err Value.EOther => if (cls =? 3)%nat then 0%nat else 1%nat
+  | Value.Panic => if (cls =? 4)%nat then 0%nat else 1%nat
+  end.
+
+Definition t3_worst (a b : nat) : nat :=
+  if ((a =? 1) || (b =? 1))%nat then 1%nat
+  else if ((a =? 99) || (b =? 99))%nat then 99%nat
+  else Nat.max a b.
+
+(* narrowed scan: a positional error must carry a position of the executed trees *)
+Definition t3_member (allowed : list nat) (cls : nat) (p : Z) : nat :=
+  if ((cls =? 1) || (cls =? 2))%nat
+  then (if existsb (fun n => (p =? Z.of_nat n)%Z) allowed then 0%nat else 1%nat)
+  else 0%nat.
+
+Definition t3_spec_code (c : ncase) (bcls : nat) : nat :=
+  if (((cerr c =? 1) || (cerr c =? 2))%nat && negb (pos_in_query (cquery c) (cpos c)))
+     || (((bcls =? 1) || (bcls =? 2))%nat && negb (pos_in_query (cquery c) (cpad c)))
+  then 2%nat else 0%nat.
+
+Definition t3_code (c : ncase) : nat :=
+  match cspos c with
+  | [bcls; B; full] =>
+      match t3_spec_code c bcls with
+      | S _ => 2%nat
+      | O =>
+        match parse_check prim_fops (cquery c) with
+        | PCOutOfModel => 99%nat
+        | PCOk (StSelect x) (Checker.SSelect fields w _) false =>
+            match s_order x, s_group x, s_limit x with
+            | None, None, None =>
+                let ex := FoldStmt.exec_tree prim_fops t3_re Fold.pf_fmt_v in
+                let w' := ex w in
+                let fs := if s_all x then None else Some (map (fun nf => ex (snd nf)) fields) in
+                if (0 <? full)%nat then
+                  let slots := t3_slots (croots c) in
+                  t3_worst (t3_cmp (ScanProj.select_row prim_fops t3_re w' fs slots) (cerr c) (cpos c))
+                           (t3_cmp (ScanProj.select_batch prim_fops t3_re B w' fs slots) bcls (cpad c))
+                else
+                  let allowed := (positions w' ++ match fs with Some l => flat_map positions l | None => [] end)%list in
+                  t3_worst (t3_member allowed (cerr c) (cpos c)) (t3_member allowed bcls (cpad c))
+            | _, _, _ => 99%nat
+            end
+        | PCOk _ _ _ => 99%nat
+        | _ => 1%nat
+        end
+      end
+  | _ => 1%nat
+  end.
+
 Definition check_ncase (c : ncase) : nat :=
-  if (corigin c =? 4)%nat then pa_code c
+  if (corigin c =? 5)%nat then t3_code c
+  else if (corigin c =? 4)%nat then pa_code c
   else if (corigin c =? 3)%nat then prov_code c
   else if negb (trim_in_model (cquery c)) then 0
   else match spec_code c with
